@@ -410,6 +410,13 @@ pub fn check_state<KK: KeyKind>(
     let ktn = KK::name();
     ctx.count("states-checked");
     let mut healthy = true;
+    if !cfg!(miri) && !site.contains('[') {
+        let bucket = format!("state/{}/{}", KK::KT.name(), site);
+        ctx.pytrace(&bucket, 1, || {
+            json!({"t": "state", "kt": KK::KT.name(), "site": site, "enc": hex(&o.enc), "seq": o.seq.to_string(), "node_id": hex(&o.node_id),
+                   "pubkey": hex(&o.pubkey), "sig": hex(&o.sig), "text": o.text, "verify": o.verify})
+        });
+    }
     // ---- C05 always-signed invariant
     if let Err(why) = authentic(o) {
         healthy = false;
@@ -583,6 +590,7 @@ pub fn run_history<KK: KeyKind>(ctx: &mut Ctx, h: &History, opts: &RunOpts) -> H
         None => {}
     }
     let mut stats = HistStats { steps_run: 0, ok_steps: 0, err_steps: 0, panicked: false, sign_calls_own: 0, sign_calls_other: 0, states: Vec::new() };
+    let mut events: Vec<serde_json::Value> = Vec::new();
 
     // ------------------------------------------------------------------ initial record
     let init_res: Result<Result<Enr<KK::K>, String>, String> = match &h.init {
@@ -870,10 +878,24 @@ pub fn run_history<KK: KeyKind>(ctx: &mut Ctx, h: &History, opts: &RunOpts) -> H
                 }
             }
         }
+        if events.len() < 40 {
+            events.push(json!({"op": opn, "arg": match &step.op {
+                    Op::SetSeq(n) => json!(n.to_string()),
+                    Op::SetUdp4(p) | Op::SetUdp6(p) | Op::SetTcp4(p) | Op::SetTcp6(p) => json!(p),
+                    _ => serde_json::Value::Null,
+                },
+                "res": match &res { Ok(_) => "ok".to_string(), Err(e) => format!("err:{}", err_kind(e)) },
+                "pre_seq": pre.seq.to_string(), "post_seq": post.seq.to_string(),
+                "pre_enc": hex(&pre.enc), "post_enc": hex(&post.enc), "post_node_id": hex(&post.node_id)}));
+        }
         cur = post;
         if ctx.samples.len() < ctx.sample_cap && i + 1 == h.steps.len() {
             ctx.sample(|| json!({"kt": ktn, "history": serde_json::to_value(h).unwrap(), "final": cur.brief()}));
         }
+    }
+    if !cfg!(miri) && !events.is_empty() && !stats.panicked && corner_of(KK::KT, h.scheme, &cur.pairs.iter().cloned().collect()).is_none() {
+        let bucket = format!("hist/{}/{}", KK::KT.name(), h.steps.len().min(3));
+        ctx.pytrace(&bucket, 2, || json!({"t": "hist", "kt": KK::KT.name(), "events": events}));
     }
     finish::<KK>(stats, &own_k, &other_k)
 }
